@@ -140,7 +140,7 @@ func runC14(c *fw.Ctx) {
 		}
 	}
 	// generated scripts and their mutants
-	n := c.N(400, 12000)
+	n := c.N(800, 12000)
 	for i := 0; i < n; i++ {
 		id := "syn/" + itoa(i)
 		if !c.Want(1000+i, id) {
@@ -218,7 +218,7 @@ func runC14(c *fw.Ctx) {
 		}
 	}
 	// token soups
-	n = c.N(60000, 3000000)
+	n = c.N(200000, 3000000)
 	for i := 0; i < n; i++ {
 		id := "soup/" + itoa(i)
 		if !c.Want(3_000_000+i, id) {
@@ -291,7 +291,7 @@ func propC15() *fw.Prop {
 }
 
 func runC15(c *fw.Ctx) {
-	n := c.N(6000, 400000)
+	n := c.N(15000, 400000)
 	for i := 0; i < n; i++ {
 		id := "rt/" + itoa(i)
 		if !c.Want(i, id) {
